@@ -356,7 +356,7 @@ class NpSem:
         v = self.eval(node, scope)
         if isinstance(v, (bool, np.bool_)):
             return bool(v)
-        if v is None or isinstance(v, (int, str, tuple, list)):
+        if v is None or isinstance(v, (int, str, tuple, list, dict, set)):
             return bool(v)
         if isinstance(v, sp.Basic) and v.is_number:
             return bool(v)
@@ -444,6 +444,8 @@ class NpSem:
             it = self.eval(s.iter, scope)
             if isinstance(it, np.ndarray):
                 it = list(it)
+            if isinstance(it, (dict, str, set)):
+                it = list(it)
             if not isinstance(it, (range, list, tuple)):
                 self.fail(s, f"loop over a value of unknown extent ({it!r})")
             for v in it:
@@ -453,7 +455,11 @@ class NpSem:
         elif isinstance(s, ast.Return):
             raise _Return(self.eval(s.value, scope) if s.value is not None else None)
         elif isinstance(s, ast.Raise):
-            raise Raised(ast.unparse(s))
+            nm = ""
+            if s.exc is not None:
+                c = s.exc.func if isinstance(s.exc, ast.Call) else s.exc
+                nm = (_dotted(c) or "").split(".")[-1]
+            raise Raised(f"{nm}: {ast.unparse(s)}")
         elif isinstance(s, (ast.Import, ast.ImportFrom, ast.Pass, ast.Global, ast.Nonlocal)):
             if isinstance(s, ast.ImportFrom):
                 for al in s.names:
@@ -467,6 +473,31 @@ class NpSem:
                 raise Raised("AssertionError: " + ast.unparse(s.test))
         elif isinstance(s, ast.FunctionDef):
             scope.set(s.name, Closure(s, scope, self))
+        elif isinstance(s, ast.With):
+            for item in s.items:
+                v = self.eval(item.context_expr, scope)
+                if item.optional_vars is not None:
+                    self.assign(item.optional_vars, v, scope)
+            self.exec_block(s.body, scope)
+        elif isinstance(s, ast.Try):
+            try:
+                self.exec_block(s.body, scope)
+            except Raised as e:
+                handled = False
+                for h in s.handlers:
+                    names = [] if h.type is None else [_dotted(x) or ast.unparse(x) for x in (h.type.elts if isinstance(h.type, ast.Tuple) else [h.type])]
+                    if h.type is None or any(e.what.startswith(n.split(".")[-1]) for n in names) or "Exception" in names:
+                        if h.name:
+                            scope.set(h.name, Opaque("exception"))
+                        self.exec_block(h.body, scope)
+                        handled = True
+                        break
+                if not handled:
+                    self.exec_block(s.finalbody, scope)
+                    raise
+            else:
+                self.exec_block(s.orelse, scope)
+            self.exec_block(s.finalbody, scope)
         else:
             self.fail(s, f"statement {type(s).__name__} not in the grammar")
 
@@ -620,6 +651,11 @@ class NpSem:
             elif isinstance(op, ast.IsNot):
                 ok = l is not r
             else:
+                if isinstance(op, (ast.In, ast.NotIn)) and isinstance(r, (dict, list, tuple, set, str)) and not isinstance(l, (Opaque, np.ndarray)):
+                    ok = (l in r) if isinstance(op, ast.In) else (l not in r)
+                    res = res and bool(ok)
+                    l = r
+                    continue
                 if any(isinstance(v, (Opaque, Stub, np.ndarray)) for v in (l, r)):
                     self.fail(node, "comparison of values the analysis cannot decide")
                 if isinstance(op, ast.Eq):
@@ -658,8 +694,10 @@ class NpSem:
         if isinstance(base, (tuple, list, dict, str, range)):
             try:
                 return base[key]
-            except (IndexError, KeyError) as e:
+            except (IndexError, KeyError, TypeError) as e:
                 raise Raised(f"{type(e).__name__}: {e}") from None
+        if isinstance(base, Stub) and "__getitem__" in base._attrs:
+            return base._attrs["__getitem__"](key)
         self.fail(node, f"subscript of {base!r}")
 
     def e_Attribute(self, node, scope):
@@ -707,6 +745,15 @@ class NpSem:
             self.fail(node, f"array attribute .{a} is not modelled")
         if isinstance(obj, tuple) and a in ("count", "index"):
             return getattr(obj, a)
+        # python containers and strings: documented semantics of the builtin methods
+        if isinstance(obj, dict) and a in ("copy", "pop", "get", "items", "keys", "values", "update", "setdefault"):
+            if a in ("items", "keys", "values"):
+                return lambda: list(getattr(obj, a)())
+            return getattr(obj, a)
+        if isinstance(obj, list) and a in ("append", "extend", "copy", "index", "pop", "insert", "count"):
+            return getattr(obj, a)
+        if isinstance(obj, str) and a in ("startswith", "endswith", "format", "join", "split", "replace", "strip", "lower", "upper"):
+            return getattr(obj, a)
         self.fail(node, f"attribute .{a} of {obj!r}")
 
     def _comp(self, node, scope, elt):
@@ -718,7 +765,7 @@ class NpSem:
                 return
             g = gens[0]
             it = self.eval(g.iter, sc)
-            if isinstance(it, np.ndarray):
+            if isinstance(it, (np.ndarray, dict, str, set)):
                 it = list(it)
             if not isinstance(it, (range, list, tuple)):
                 self.fail(node, f"comprehension over a value of unknown extent ({it!r})")
@@ -736,6 +783,24 @@ class NpSem:
 
     def e_GeneratorExp(self, node, scope):
         return self._comp(node, scope, lambda sc: self.eval(node.elt, sc))
+
+    def e_NamedExpr(self, node, scope):
+        v = self.eval(node.value, scope)
+        # (PEP 572: binds in the enclosing function scope, also from inside comprehensions)
+        self.assign(node.target, v, scope)
+        return v
+
+    def e_Dict(self, node, scope):
+        out = {}
+        for k, v in zip(node.keys, node.values):
+            if k is None:
+                out.update(self.eval(v, scope))
+            else:
+                out[self.eval(k, scope)] = self.eval(v, scope)
+        return out
+
+    def e_Set(self, node, scope):
+        return {self.eval(e, scope) for e in node.elts}
 
     def e_Lambda(self, node, scope):
         return Closure(node, scope, self)
